@@ -160,3 +160,54 @@ def check_count_budget(n_checks):
             return self.checks > self.n
 
     return CheckCountBudget(n_checks)
+
+
+def tiny_ambiguous():
+    """Num -> Lit(0..9) | Sub(Num, Num) with a __str__ that prints subtraction WITHOUT parentheses: different programs
+    can print alike ('7 - 2 - 1'), which is legal and common in user grammars."""
+    if "amb" in _cache:
+        return _cache["amb"]
+    from geneticengine.grammar.grammar import extract_grammar
+    from geneticengine.grammar.metahandlers.ints import IntRange
+
+    modname = "gev_tiny_ambiguous"
+    mod = types.ModuleType(modname)
+    sys.modules[modname] = mod
+
+    class Num(ABC):
+        pass
+
+    @dataclass
+    class Lit(Num):
+        v: Annotated[int, IntRange(0, 9)]
+
+        def __str__(self):
+            return str(self.v)
+
+        def value(self):
+            return self.v
+
+        def left_depth(self):
+            return 1
+
+    @dataclass
+    class Sub(Num):
+        l: Num  # noqa: E741
+        r: Num
+
+        def __str__(self):
+            return f"{self.l} - {self.r}"
+
+        def value(self):
+            return self.l.value() - self.r.value()
+
+        def left_depth(self):
+            return 1 + self.l.left_depth()
+
+    for c in (Num, Lit, Sub):
+        c.__module__ = modname
+        c.__qualname__ = c.__name__
+        setattr(mod, c.__name__, c)
+    g = extract_grammar([Lit, Sub], Num)
+    _cache["amb"] = (g, mod)
+    return _cache["amb"]
